@@ -89,7 +89,9 @@ CacheShape         == ("FontCacheKeyedByFontOnly" \in Deviations) =>
      {"a":"Extract","d":<class>,"f":font|"","g":[gids],"out":"ok"|"fail"|"same"|<other>,"gl":[resolved gids],"same":bool}
           d in "plain" | "aesT" | "aesU" | "font";   `same`: to_json digest equals the isolated baseline
           for "plain" the harness reports out = "same" iff the digest (or the exception) equals the baseline
-     {"a":"Residue","fns":bool,"cfg":bool,"tmp":bool,"fds":bool}   each: unchanged w.r.t. process start *)
+     {"a":"Residue","aesfn":bool,"fns":bool,"cfg":bool,"tmp":bool,"fds":bool}   each: unchanged w.r.t. process start
+          aesfn: pypdf's AES provider functions (the set patch_pypdf_fallback_aes replaces);  fns: every OTHER
+          third-party function / class / method                                                              *)
 Traces == JsonDeserialize(IOEnv.TRACE_FILE)
 tvars == gvars
 
@@ -111,8 +113,8 @@ TraceExtract ==
 
 TraceResidue ==
     /\ IsEvent("Residue")
-    /\ Ev.cfg /\ Ev.tmp /\ Ev.fds
-    /\ Ev.fns = ~aes                                       \* third-party functions back iff not patched
+    /\ Ev.cfg /\ Ev.tmp /\ Ev.fds /\ Ev.fns
+    /\ Ev.aesfn = ~aes                                     \* AES provider functions back iff not patched
     /\ UNCHANGED <<cache, aes, hist, obs>>
 
 TraceInit == tid \in 1..Len(Traces) /\ l = 1 /\ cache = {} /\ aes = FALSE /\ hist = <<>> /\ obs = <<>>
